@@ -422,6 +422,9 @@ impl Planted {
         let (p, ss, _) = self.decode(id);
         (p, ss)
     }
+    pub fn devs_of(&self, id: u64) -> Vec<Dev> {
+        self.decode(id).2
+    }
 }
 
 impl Space for Planted {
@@ -504,6 +507,8 @@ pub fn sweep_spaces(judge: Judge, tier: &str) -> Vec<Box<dyn Space>> {
         vec![PSD(2)],
         vec![Zero(2), NN(1)],
         vec![SOC(2), Zero(1)],
+        vec![NN(1), Zero(1), NN(1)],
+        vec![NN(1), SOC(1), Zero(1)],
     ];
     for l in &m3_lists {
         v.push(Box::new(Tiny::new(l.clone(), 1, if thorough { s1.clone() } else { s0.clone() }, judge, if thorough { "S<=1" } else { "default" })));
